@@ -101,6 +101,20 @@ def obligations():
             for r_ in (4, 5):
                 o.append(Obl(f"C10.voxel.{c}.cut40.fine.g{g}.row{r_}", "py", V, "voxel_pair", venc, f"cell {c}, cutoff 0.4 x half width, fine grid: atom 0 at grid point {g}, atom 1 over row {r_} (8 positions)", "same", 3000,
                              params={"cell": c, "cut_frac": 0.4, "g0": g, "grid": "fine", "row": r_}, tiers=("thorough",)))
+    # no cell, TWO far atoms fix the bounding box: one voxel (taller than the cutoff) along one axis, four layers (shorter than the cutoff) along the other;
+    # the pair sits two layers apart yet within the cutoff: the reach along each axis must come from that axis' own voxel size
+    cut_ = 1.2
+    for axis in ("z", "y"):
+        lo, hi_short, hi_long = 0.0, 1.4 * cut_, 3.55 * cut_
+        vs = hi_long / 4
+        a0, a1 = round(lo + 0.99 * vs, 4), round(lo + 2.01 * vs, 4)
+        mid = round(0.5 * hi_short, 4)
+        for order in (0, 1):
+            p0, p1 = (a0, a1) if order == 0 else (a1, a0)
+            pts = f"{mid},{p0},{mid},{p1}" if axis == "z" else f"{p0},{mid},{p1},{mid}"
+            spec = f"100,{lo},{lo},-100,{hi_short if axis == 'z' else hi_long},{hi_long if axis == 'z' else hi_short}"
+            o.append(Obl(f"C10.voxel.nocell.two_layers_apart.{axis}.order{order}", "py", V, "voxel_pair", venc, f"no cell, cutoff 1.2; two far atoms fix the bounding box (one voxel along the other axis, four layers of 0.89 cutoff along {axis}); the pair sits two layers apart along {axis}, 0.91 cutoff apart; x symbolic",
+                         "listed exactly when the plain distance is below the cutoff (the search must reach two layers along this axis)", 600, params={"cell": "cubic3", "cut_frac": 0.8, "g0": 0, "periodic": False, "points": pts, "spectator": spec}))
     for g in range(0, 64, 3):
         o.append(Obl(f"C10.voxel.nocell.stretched_fine.g{g}", "py", V, "voxel_pair", venc, f"no cell, cutoff 1.2, FINE grid; a third atom at (100, 2.0, 3.2) makes the voxels taller than the cutoff in y and shorter in z for part of the grid; pair grid point {g} of 64",
                      "same", 900, params={"cell": "cubic3", "cut_frac": 0.8, "g0": g, "periodic": False, "spectator": "100,2.0,3.2", "grid": "fine"}))
@@ -114,5 +128,5 @@ MANIFEST_INFO = {
     "engine": "llsym+cxxsym",
     "technique": "forking symbolic interpretation of neighbors.cpp's LLVM IR (incl. std::vector code) with symbolic coordinates and exact non-linear real queries on the wrapped difference; the voxel list neighborlist.cpp lowered from clang's JSON AST and executed on atom pairs with symbolic x (z3 linear arithmetic with floor / round integers), native shim replay",
     "text": "compute_neighbors' kernel returns exactly the haystack atoms within the cutoff (minimum-image sense) for every atom placement, for catalogue cells and cutoffs up to half the cell width. compute_neighborlist's voxel search lists an atom pair (symmetrically, once) exactly when an image is within the cutoff, for every x of both atoms within +-2.5 cells and a grid of y / z positions inside and outside the cell, for five cells and no cell.",
-    "note": "The voxel list is decided for pairs (two atoms per call, optionally a third concrete far atom) with y / z on grids or explicit positions; defects that need three or more interacting atoms are outside this bound (seeded C10-m7 is not detected); the Cython frame loops are outside. Two defects found this way were repaired (b5a4600c: atoms outside the primary cell lose neighbours; 4e184836: skewed cells with few voxel layers).",
+    "note": "The voxel list is decided for pairs (two atoms per call, optionally one or two concrete far atoms) with y / z on grids or explicit positions; defects that need three or more INTERACTING atoms are outside this bound (far concrete atoms can shape the voxel grid); the Cython frame loops are outside. Two defects found this way were repaired (b5a4600c: atoms outside the primary cell lose neighbours; 4e184836: skewed cells with few voxel layers).",
 }
